@@ -38,6 +38,11 @@ func hostileData(r *Rng) any {
 		"ident": func(a any) any { return a }, "one": func() int64 { return 1 },
 		"rec": func(k int64) int64 { return k }, "recb": func(k int64, b bool) bool { return b }, "recs": func(k int64, s string) string { return s },
 	}
+	if r.Chance(20) { // any Go value can be the data root
+		roots := []any{[2]int{7, 8}, [0]string{}, &[2]int{1, 2}, []int(nil), map[string]any(nil), map[int]string{1: "a"}, "root string", 3.5, true,
+			func() int { return 1 }, (*[2]int)(nil), []byte("ab"), make(chan int), uncomparable{F: []int{1}}, stringerPanics{}, struct{}{}, &d, time.Duration(3), complex(1, 1), new(any), uintptr(7)}
+		return roots[r.Intn(len(roots))]
+	}
 	switch r.Intn(8) {
 	case 0:
 		return nil
